@@ -7,8 +7,8 @@ The closed-form round trip of `Props/C05Plain` extended to user objects of *simp
 classes without hooks (`_yatiml_recognize`, `_yatiml_savorize`, `_yatiml_sweeten`), without registered
 bases or registered subclasses, not abstract, with or without `_yatiml_extra` (extra attributes holding
 plain data) — whose constructor parameters are plain data, floats, paths, enum members, string-likes,
-`Optional` positions, untyped / `Any` positions holding plain data, or again such objects, nested to any
-depth.  For these the description `RT`
+`Optional` positions, Unions whose members accept different kinds of node, untyped / `Any` positions
+holding plain data, or again such objects, nested to any depth.  For these the description `RT`
 (with its per-node uniqueness of recognition) is *derived* from the model of the representers, so
 
     represent v = node   and   v has type T   ⟹   load(node, T) = v
@@ -66,6 +66,23 @@ inductive NonNullTy (env : Env) : Ty → Prop
       NonNullTy env (.cls d.name)
   | strCls (d : ClassDef) : SimpleLeafClass env d → d.kind = .stringLike → NonNullTy env (.cls d.name)
 
+/-- node kinds, as the recogniser tells them apart -/
+inductive NK | str | int | float | bool | null | seq | map
+  deriving DecidableEq
+
+/-- the member types a `Union` may have here, with the kind of node each of them accepts; a Union whose
+members accept pairwise different kinds is unambiguous -/
+inductive MemberTy (env : Env) : Ty → NK → Prop
+  | str : MemberTy env .str .str
+  | path : MemberTy env .path .str
+  | int : MemberTy env .int .int
+  | float : MemberTy env .float .float
+  | bool : MemberTy env .bool .bool
+  | null : MemberTy env .null .null
+  | seq (k : SeqKind) (item : Ty) : MemberTy env (.seq k item) .seq
+  | map (k : MapKind) (V : Ty) : MemberTy env (.map k .str V) .map
+  | cls (d : ClassDef) : SimpleClass env d → MemberTy env (.cls d.name) .map
+
 /-- values of a type: plain data as in `HasTy`, objects of simple classes carrying one value of the
 declared type per constructor parameter, in declaration order, that the constructor accepted, and
 `Optional[T]` positions holding `None` or a value of `T` -/
@@ -102,6 +119,9 @@ inductive HasTyE (env : Env) : Ty → PyVal → Prop
   | any (v : PyVal) : PlainAny v → HasTyE env .any v
   | optNone (T : Ty) : NonNullTy env T → HasTyE env (optTy T) (.scalar .none)
   | optSome (T : Ty) (v : PyVal) : NonNullTy env T → HasTyE env T v → HasTyE env (optTy T) v
+  | union (ms : Tys) (m : Ty) (k : NK) (v : PyVal) : m ∈ ms.toList → MemberTy env m k →
+      (∀ m' ∈ ms.toList, m' ≠ m → ∃ k', MemberTy env m' k' ∧ k' ≠ k) → HasTyE env m v →
+      HasTyE env (.union ms) v
 
 -- how much fuel the loader needs for the node of a value
 mutual
@@ -164,13 +184,13 @@ theorem typeMatchesKVs_of (env : Env) (V : Ty) : ∀ (kvs : PyKVs),
       typeMatchesKVs_of env V r (fun e he => hk e (by simp [PyKVs.toList, he]))
         (fun e he => hv e (by simp [PyKVs.toList, he]))⟩
 
-theorem nonNull_not_opt (env : Env) (T : Ty) (h : NonNullTy env T) : ∀ T', T ≠ optTy T' := by
-  intro T' e
-  cases h <;> simp [optTy] at e
+theorem nonNull_not_opt (env : Env) (T : Ty) (h : NonNullTy env T) : ∀ ms, T ≠ Ty.union ms := by
+  intro ms e
+  cases h <;> cases e
 
 theorem hasTyE_typeMatches_core (env : Env) (n : Nat)
     (ih : ∀ (T : Ty) (v : PyVal), need v ≤ n → HasTyE env T v → typeMatches env v T = true) :
-    ∀ (T : Ty) (v : PyVal), need v ≤ n + 1 → HasTyE env T v → (∀ T', T ≠ optTy T') →
+    ∀ (T : Ty) (v : PyVal), need v ≤ n + 1 → HasTyE env T v → (∀ ms, T ≠ Ty.union ms) →
       typeMatches env v T = true := by
   intro T v hn h hno
   cases h with
@@ -195,8 +215,23 @@ theorem hasTyE_typeMatches_core (env : Env) (n : Nat)
   | enum d members name _ _ _ => simp [typeMatches, isInstanceOf]
   | ustr d t _ _ _ => simp [typeMatches, isInstanceOf]
   | any v _ => simp [typeMatches]
-  | optNone T _ => exact absurd rfl (hno T)
-  | optSome T v _ _ => exact absurd rfl (hno T)
+  | optNone T _ => exact absurd rfl (hno _)
+  | optSome T v _ _ => exact absurd rfl (hno _)
+  | union ms m k v _ _ _ _ => exact absurd rfl (hno _)
+
+theorem memberTy_not_union (env : Env) (m : Ty) (k : NK) (h : MemberTy env m k) : ∀ ms, m ≠ Ty.union ms := by
+  intro ms e
+  cases h <;> cases e
+
+theorem typeMatchesAny_of_mem (env : Env) (v : PyVal) (m : Ty) (hm : typeMatches env v m = true) :
+    ∀ (ms : Tys), m ∈ ms.toList → typeMatchesAny env v ms = true
+  | .nil, h => by simp [Tys.toList] at h
+  | .cons t ts, h => by
+    simp only [Tys.toList, List.mem_cons] at h
+    simp only [typeMatchesAny, Bool.or_eq_true]
+    rcases h with rfl | h
+    · exact Or.inl hm
+    · exact Or.inr (typeMatchesAny_of_mem env v m hm ts h)
 
 theorem hasTyE_typeMatches (env : Env) : ∀ (n : Nat) (T : Ty) (v : PyVal), need v ≤ n → HasTyE env T v →
     typeMatches env v T = true
@@ -208,29 +243,33 @@ theorem hasTyE_typeMatches (env : Env) : ∀ (n : Nat) (T : Ty) (v : PyVal), nee
     | optSome T v hnn hin =>
       have := hasTyE_typeMatches_core env n ih T v hn hin (nonNull_not_opt env T hnn)
       simp [optTy, typeMatches, typeMatchesAny, this]
-    | str s => exact hasTyE_typeMatches_core env n ih _ _ hn (HasTyE.str s) (by intro T' e; simp [optTy] at e)
-    | int i => exact hasTyE_typeMatches_core env n ih _ _ hn (HasTyE.int i) (by intro T' e; simp [optTy] at e)
-    | bool b => exact hasTyE_typeMatches_core env n ih _ _ hn (HasTyE.bool b) (by intro T' e; simp [optTy] at e)
-    | null => exact hasTyE_typeMatches_core env n ih _ _ hn HasTyE.null (by intro T' e; simp [optTy] at e)
+    | union ms m k v hmem hmt _ hin =>
+      have := hasTyE_typeMatches_core env n ih m v hn hin (memberTy_not_union env m k hmt)
+      simp only [typeMatches]
+      exact typeMatchesAny_of_mem env v m this ms hmem
+    | str s => exact hasTyE_typeMatches_core env n ih _ _ hn (HasTyE.str s) (by intro ms e; cases e)
+    | int i => exact hasTyE_typeMatches_core env n ih _ _ hn (HasTyE.int i) (by intro ms e; cases e)
+    | bool b => exact hasTyE_typeMatches_core env n ih _ _ hn (HasTyE.bool b) (by intro ms e; cases e)
+    | null => exact hasTyE_typeMatches_core env n ih _ _ hn HasTyE.null (by intro ms e; cases e)
     | seq k item xs hx =>
-      exact hasTyE_typeMatches_core env n ih _ _ hn (HasTyE.seq k item xs hx) (by intro T' e; simp [optTy] at e)
+      exact hasTyE_typeMatches_core env n ih _ _ hn (HasTyE.seq k item xs hx) (by intro ms e; cases e)
     | map k V kvs hk hv hko =>
-      exact hasTyE_typeMatches_core env n ih _ _ hn (HasTyE.map k V kvs hk hv hko) (by intro T' e; simp [optTy] at e)
+      exact hasTyE_typeMatches_core env n ih _ _ hn (HasTyE.map k V kvs hk hv hko) (by intro ms e; cases e)
     | obj d kw hS h0 h1 h2 h3 =>
-      exact hasTyE_typeMatches_core env n ih _ _ hn (HasTyE.obj d kw hS h0 h1 h2 h3) (by intro T' e; simp [optTy] at e)
+      exact hasTyE_typeMatches_core env n ih _ _ hn (HasTyE.obj d kw hS h0 h1 h2 h3) (by intro ms e; cases e)
     | objX d mainKw extraKw hS h0 h1 h2 h3 h4 h5 h6 =>
       exact hasTyE_typeMatches_core env n ih _ _ hn (HasTyE.objX d mainKw extraKw hS h0 h1 h2 h3 h4 h5 h6)
-        (by intro T' e; simp [optTy] at e)
+        (by intro ms e; cases e)
     | float r i h1 =>
-      exact hasTyE_typeMatches_core env n ih _ _ hn (HasTyE.float r i h1) (by intro T' e; simp [optTy] at e)
+      exact hasTyE_typeMatches_core env n ih _ _ hn (HasTyE.float r i h1) (by intro ms e; cases e)
     | path t h1 =>
-      exact hasTyE_typeMatches_core env n ih _ _ hn (HasTyE.path t h1) (by intro T' e; simp [optTy] at e)
+      exact hasTyE_typeMatches_core env n ih _ _ hn (HasTyE.path t h1) (by intro ms e; cases e)
     | enum d members name h1 h2 h3 =>
-      exact hasTyE_typeMatches_core env n ih _ _ hn (HasTyE.enum d members name h1 h2 h3) (by intro T' e; simp [optTy] at e)
+      exact hasTyE_typeMatches_core env n ih _ _ hn (HasTyE.enum d members name h1 h2 h3) (by intro ms e; cases e)
     | ustr d t h1 h2 h3 =>
-      exact hasTyE_typeMatches_core env n ih _ _ hn (HasTyE.ustr d t h1 h2 h3) (by intro T' e; simp [optTy] at e)
+      exact hasTyE_typeMatches_core env n ih _ _ hn (HasTyE.ustr d t h1 h2 h3) (by intro ms e; cases e)
     | any v h1 =>
-      exact hasTyE_typeMatches_core env n ih _ _ hn (HasTyE.any v h1) (by intro T' e; simp [optTy] at e)
+      exact hasTyE_typeMatches_core env n ih _ _ hn (HasTyE.any v h1) (by intro ms e; cases e)
 
 /-! ### recognising the node of a simple object -/
 
@@ -493,15 +532,16 @@ theorem desc_core (env : Env) (denv : DumpEnv) (tbl : List Entry) (hns : C07.NoS
     (IH : ∀ (T : Ty) (v : PyVal) (o : RepOut), represent denv g v = .ok o → HasTyE env T v →
       ∀ f, need v ≤ f → Desc env tbl f T v o.node) :
     ∀ (T : Ty) (v : PyVal) (o : RepOut), represent denv (g + 1) v = .ok o → HasTyE env T v →
-      (∀ T', T ≠ optTy T') → ∀ f, need v ≤ f + 1 → DescAt env tbl f T T v o.node := by
+      (∀ ms, T ≠ Ty.union ms) → ∀ f, need v ≤ f + 1 → DescAt env tbl f T T v o.node := by
   intro T v o h ht hno f hf
   have simple_described : ∀ (T : Ty) (v : PyVal) (o : RepOut), represent denv g v = .ok o → HasTyE env T v →
       ∀ f, need v ≤ f → RT env tbl f T v o.node :=
     fun T v o h ht f hf => by obtain ⟨R, hR⟩ := IH T v o h ht f hf; exact desc_rt hR
   obtain ⟨f, rfl⟩ : ∃ f', f = f' + 1 := ⟨f - 1, by have := need_pos v; omega⟩
   cases ht with
-  | optNone T _ => exact absurd rfl (hno T)
-  | optSome T v _ _ => exact absurd rfl (hno T)
+  | optNone T _ => exact absurd rfl (hno _)
+  | optSome T v _ _ => exact absurd rfl (hno _)
+  | union ms m k v _ _ _ _ => exact absurd rfl (hno _)
   | objX d mainKw extraKw S hte hkeys hvals hext hplain hkok hinit =>
     simp only [represent] at h
     split at h
@@ -923,8 +963,134 @@ theorem nonNull_value (env : Env) (T : Ty) (v : PyVal) (hnn : NonNullTy env T) (
   cases h with
   | null => cases hnn
   | any _ _ => cases hnn
+  | union _ _ _ _ _ _ _ _ => cases hnn
   | optNone T' _ => cases hnn
   | optSome T' _ _ _ => cases hnn
+
+/-! ### Unions whose members accept different kinds of node -/
+
+theorem tagne_tStr_tInt : (tStr == tInt) = false := by decide
+theorem tagne_tStr_tFloat : (tStr == tFloat) = false := by decide
+theorem tagne_tStr_tBool : (tStr == tBool) = false := by decide
+theorem tagne_tStr_tNull : (tStr == tNull) = false := by decide
+theorem tagne_tInt_tStr : (tInt == tStr) = false := by decide
+theorem tagne_tInt_tFloat : (tInt == tFloat) = false := by decide
+theorem tagne_tInt_tBool : (tInt == tBool) = false := by decide
+theorem tagne_tInt_tNull : (tInt == tNull) = false := by decide
+theorem tagne_tFloat_tStr : (tFloat == tStr) = false := by decide
+theorem tagne_tFloat_tInt : (tFloat == tInt) = false := by decide
+theorem tagne_tFloat_tBool : (tFloat == tBool) = false := by decide
+theorem tagne_tFloat_tNull : (tFloat == tNull) = false := by decide
+theorem tagne_tBool_tStr : (tBool == tStr) = false := by decide
+theorem tagne_tBool_tInt : (tBool == tInt) = false := by decide
+theorem tagne_tBool_tFloat : (tBool == tFloat) = false := by decide
+theorem tagne_tBool_tNull : (tBool == tNull) = false := by decide
+theorem tagne_tNull_tStr : (tNull == tStr) = false := by decide
+theorem tagne_tNull_tInt : (tNull == tInt) = false := by decide
+theorem tagne_tNull_tFloat : (tNull == tFloat) = false := by decide
+theorem tagne_tNull_tBool : (tNull == tBool) = false := by decide
+
+/-- the node has the shape the recogniser takes for kind `k` -/
+def NodeIs : Node → NK → Prop
+  | .scalar t _ _, .str => t = tStr
+  | .scalar t _ _, .int => t = tInt
+  | .scalar t _ _, .float => t = tFloat
+  | .scalar t _ _, .bool => t = tBool
+  | .scalar t _ _, .null => t = tNull
+  | .seq _ _ _, .seq => True
+  | .map _ _ _, .map => True
+  | _, _ => False
+
+def Rejects (r : RecRes) : Prop := ∃ l, r = .ok ([], l)
+theorem rejects_recFail (m : List Mark) (k : List String) : Rejects (recFail m k) := ⟨_, rfl⟩
+
+/-- a member type does not recognise a node of another kind -/
+theorem reject_member (env : Env) (m' : Ty) (k' k : NK) (n : Node) (b : Nat)
+    (hm : MemberTy env m' k') (hn : NodeIs n k) (hk : k' ≠ k) :
+    Rejects (recognizeReq env (b + 2) n (.ty m')) := by
+  cases hm
+  case cls d S =>
+    have hreg := find_isRegistered env d.name d S.found
+    cases n <;> cases k <;> simp only [NodeIs] at hn <;>
+      first
+      | exact absurd rfl hk
+      | (simp only [recognizeReq, hreg, if_true, S.found, S.noSub, recSubclasses, List.length_nil, BEq.rfl,
+           S.concrete, Bool.false_eq_true, if_false, recUserClass, S.recog, S.kind, recFail, finishClasses,
+           List.nil_append]
+         exact ⟨_, rfl⟩)
+  all_goals
+    cases n <;> cases k <;> simp only [NodeIs] at hn <;>
+      first
+      | exact absurd rfl hk
+      | (subst hn
+         simp only [recognizeReq, recScalar, recList, recDict, keyTypeOk, Bool.not_true, Bool.false_eq_true,
+           if_false, tagne_tStr_tInt, tagne_tStr_tFloat, tagne_tStr_tBool, tagne_tStr_tNull, tagne_tInt_tStr, tagne_tInt_tFloat, tagne_tInt_tBool, tagne_tInt_tNull, tagne_tFloat_tStr, tagne_tFloat_tInt, tagne_tFloat_tBool, tagne_tFloat_tNull, tagne_tBool_tStr, tagne_tBool_tInt, tagne_tBool_tFloat, tagne_tBool_tNull, tagne_tNull_tStr, tagne_tNull_tInt, tagne_tNull_tFloat, tagne_tNull_tBool]
+         exact rejects_recFail _ _)
+      | (simp only [recognizeReq, recScalar, recList, recDict, keyTypeOk, Bool.not_true, Bool.false_eq_true,
+           if_false]
+         exact rejects_recFail _ _)
+
+/-- the node of a value of a member type has that member's kind -/
+theorem rtcore_kind (env : Env) (tbl : List Entry) (f : Nat) (rt : Ty → PyVal → Node → Prop)
+    (m : Ty) (k : NK) (v : PyVal) (n : Node) (hc : RTcore env tbl f rt m v n) (hm : MemberTy env m k) :
+    NodeIs n k := by
+  cases hm
+  case cls d S =>
+    cases hc with
+    | obj c kw ps m d' _ _ _ _ _ _ _ => simp [NodeIs]
+    | enum c name m d' members hf hk _ _ => rw [S.found] at hf; cases hf; rw [S.kind] at hk; cases hk
+    | userStr c s m d' hf hk _ _ => rw [S.found] at hf; cases hf; rw [S.kind] at hk; cases hk
+  all_goals (cases hc <;> simp [NodeIs])
+
+theorem unionT_nil_single (R : Ty) : unionT [] [R] = [R] := by simp [unionT, insertT]
+theorem unionT_single_single (R : Ty) : unionT [R] [R] = [R] := by simp [unionT, insertT]
+theorem unionT_nil_right (a : List Ty) : unionT a [] = a := by simp [unionT]
+
+/-- if every member either recognises the node as `R` or rejects it, the accumulated set is `{}` or `{R}`,
+and it is `{R}` as soon as one member recognised the node -/
+theorem recUnionMembers_one (rec : Node → Ty → RecRes) (n : Node) (R : Ty) :
+    ∀ (ms : List Ty) (acc : UnionAcc),
+      (∀ m' ∈ ms, (∃ l, rec n m' = .ok ([R], l)) ∨ Rejects (rec n m')) →
+      (acc.types = [] ∨ acc.types = [R]) →
+      ∃ acc', recUnionMembers rec n ms acc = .ok acc' ∧ (acc'.types = [] ∨ acc'.types = [R]) ∧
+        ((acc.types = [R] ∨ ∃ m' ∈ ms, ∃ l, rec n m' = .ok ([R], l)) → acc'.types = [R])
+  | [], acc, _, ha => ⟨acc, rfl, ha, fun h => by
+      rcases h with h | ⟨m', hm', _⟩
+      · exact h
+      · cases hm'⟩
+  | m' :: ms, acc, hall, ha => by
+    rcases hall m' (by simp) with ⟨l, hr⟩ | ⟨l, hr⟩
+    · -- this member recognises the node
+      have hacc1 : unionT acc.types [R] = [R] := by
+        rcases ha with h | h <;> rw [h]
+        · exact unionT_nil_single R
+        · exact unionT_single_single R
+      obtain ⟨acc', h1, h2, h3⟩ := recUnionMembers_one rec n R ms
+        { types := unionT acc.types [R], causes := acc.causes }
+        (fun x hx => hall x (by simp [hx])) (Or.inr hacc1)
+      refine ⟨acc', ?_, h2, fun _ => h3 (Or.inl hacc1)⟩
+      simp [recUnionMembers, hr, h1]
+    · -- this member rejects it
+      obtain ⟨acc', h1, h2, h3⟩ := recUnionMembers_one rec n R ms
+        { types := acc.types, causes := acc.causes ++ [l] }
+        (fun x hx => hall x (by simp [hx])) ha
+      refine ⟨acc', ?_, h2, ?_⟩
+      · simp [recUnionMembers, hr, unionT_nil_right, h1]
+      · intro h
+        apply h3
+        rcases h with h | ⟨x, hx, lx, hxr⟩
+        · exact Or.inl h
+        · rcases List.mem_cons.mp hx with rfl | hx'
+          · rw [hr] at hxr; cases hxr
+          · exact Or.inr ⟨x, hx', lx, hxr⟩
+
+theorem recUnion_one (rec : Node → Ty → RecRes) (n : Node) (R : Ty) (ms : List Ty)
+    (hall : ∀ m' ∈ ms, (∃ l, rec n m' = .ok ([R], l)) ∨ Rejects (rec n m'))
+    (hone : ∃ m' ∈ ms, ∃ l, rec n m' = .ok ([R], l)) :
+    recUnion rec n ms = .ok ([R], [okLeaf]) := by
+  obtain ⟨acc', h1, _, h3⟩ := recUnionMembers_one rec n R ms ⟨[], []⟩ hall (Or.inl rfl)
+  have := h3 (Or.inr hone)
+  simp [recUnion, h1, this, dropBoolFix_single]
 
 /-- **The representers' node describes the value**, for plain data, objects of simple classes and
 `Optional` positions, nested to any depth: recognition singles out one type at every node, and the node has
@@ -936,23 +1102,42 @@ theorem simple_described (env : Env) (denv : DumpEnv) (tbl : List Entry) (hns : 
   | g + 1, T, v, o, h, ht, f, hf => by
     have IH := simple_described env denv tbl hns g
     have core := desc_core env denv tbl hns g IH
-    have plain : ∀ (hno : ∀ T', T ≠ optTy T'), Desc env tbl f T v o.node := by
+    have plain : ∀ (hno : ∀ ms, T ≠ Ty.union ms), Desc env tbl f T v o.node := by
       intro hno
       exact ⟨T, core T v o h ht hno f (by omega)⟩
     cases ht with
-    | str s => exact plain (by intro T' e; simp [optTy] at e)
-    | int i => exact plain (by intro T' e; simp [optTy] at e)
-    | bool b => exact plain (by intro T' e; simp [optTy] at e)
-    | null => exact plain (by intro T' e; simp [optTy] at e)
-    | seq k item xs hx => exact plain (by intro T' e; simp [optTy] at e)
-    | map k V kvs hk hv hko => exact plain (by intro T' e; simp [optTy] at e)
-    | obj d kw hS h0 h1 h2 h3 => exact plain (by intro T' e; simp [optTy] at e)
-    | objX d mainKw extraKw hS h0 h1 h2 h3 h4 h5 h6 => exact plain (by intro T' e; simp [optTy] at e)
-    | float r i h1 => exact plain (by intro T' e; simp [optTy] at e)
-    | path t h1 => exact plain (by intro T' e; simp [optTy] at e)
-    | enum d members name h1 h2 h3 => exact plain (by intro T' e; simp [optTy] at e)
-    | ustr d t h1 h2 h3 => exact plain (by intro T' e; simp [optTy] at e)
-    | any v h1 => exact plain (by intro T' e; simp [optTy] at e)
+    | str s => exact plain (by intro ms e; cases e)
+    | int i => exact plain (by intro ms e; cases e)
+    | bool b => exact plain (by intro ms e; cases e)
+    | null => exact plain (by intro ms e; cases e)
+    | seq k item xs hx => exact plain (by intro ms e; cases e)
+    | map k V kvs hk hv hko => exact plain (by intro ms e; cases e)
+    | obj d kw hS h0 h1 h2 h3 => exact plain (by intro ms e; cases e)
+    | objX d mainKw extraKw hS h0 h1 h2 h3 h4 h5 h6 => exact plain (by intro ms e; cases e)
+    | float r i h1 => exact plain (by intro ms e; cases e)
+    | path t h1 => exact plain (by intro ms e; cases e)
+    | enum d members name h1 h2 h3 => exact plain (by intro ms e; cases e)
+    | ustr d t h1 h2 h3 => exact plain (by intro ms e; cases e)
+    | any v h1 => exact plain (by intro ms e; cases e)
+    | union ms m k v hmem hmt hothers hin =>
+      have hnu := memberTy_not_union env m k hmt
+      have hpos := need_pos v
+      obtain ⟨f', rfl⟩ : ∃ f', f = f' + 1 := ⟨f - 1, by omega⟩
+      obtain ⟨l1, hr1, _, _, _⟩ := core m v o h hin hnu f' (by omega)
+      obtain ⟨l2, _, fb, hfb, hcore⟩ := core m v o h hin hnu (f' + 1) (by omega)
+      have hfb' : fb = f' := by omega
+      rw [hfb'] at hcore
+      obtain ⟨b, rfl⟩ : ∃ b, f' = b + 2 := ⟨f' - 2, by omega⟩
+      have hkind := rtcore_kind env tbl (b + 2) _ m k v o.node hcore hmt
+      have hrec : recognize env (b + 2 + 1) o.node (.union ms) = .ok ([m], [okLeaf]) := by
+        simp only [recognize, recognizeReq]
+        refine recUnion_one _ _ m ms.toList ?_ ⟨m, hmem, l1, hr1⟩
+        intro m' hm'
+        by_cases hmm : m' = m
+        · subst hmm; exact Or.inl ⟨l1, hr1⟩
+        · obtain ⟨k', hmt', hkk⟩ := hothers m' hm' hmm
+          exact Or.inr (reject_member env m' k' k o.node b hmt' hkind hkk)
+      exact ⟨m, [okLeaf], hrec, b + 2, rfl, hcore⟩
     | optNone T hnn =>
       simp only [represent, representScalar] at h; cases h
       simp only [need] at hf
@@ -990,8 +1175,8 @@ open YatimlModel
 and value made of plain data (strings, integers, booleans, `None`, floats whose `repr` CPython's
 `float()` reads back, paths, lists, string-keyed dicts), members of enums and string-likes without hooks,
 objects of *simple* classes (plain, no hooks, no registered bases or subclasses, not abstract; with or
-without `_yatiml_extra`, whose extra attributes hold plain data) and `Optional[...]` positions, nested to
-any depth: if the dump side has no
+without `_yatiml_extra`, whose extra attributes hold plain data), `Optional[...]` positions and Unions whose
+members accept pairwise different kinds of node, nested to any depth: if the dump side has no
 `_yatiml_sweeten` hooks, the node tree the representers build loads back — with enough fuel for the
 depth of the value — as exactly that value: same classes, equal attribute values, same list and mapping
 order.  No precondition about recognition: its uniqueness at every node is derived. -/
@@ -1078,6 +1263,17 @@ example : HasTyE envX (.cls "Open")
   · constructor
     · intro e he; simp at he; rcases he with rfl | rfl <;> rfl
     · simp [strKey, keyEq, numKey]
+
+-- `Union[int, str, Sequence[int], Point]`: members that take different kinds of node; a string spelt `12`
+example : HasTyE envS (.union (Tys.ofList [.int, .str, .seq .sequence .int, .cls "Point"])) (.scalar (.str "12")) := by
+  refine HasTyE.union _ .str .str _ (by simp [Tys.ofList, Tys.toList]) MemberTy.str ?_ (HasTyE.str _)
+  intro m' hm' hne
+  simp [Tys.ofList, Tys.toList] at hm'
+  rcases hm' with rfl | rfl | rfl | rfl
+  · exact ⟨.int, MemberTy.int, by decide⟩
+  · exact absurd rfl hne
+  · exact ⟨.seq, MemberTy.seq _ _, by decide⟩
+  · exact ⟨.map, MemberTy.cls pointD pointD_simple, by decide⟩
 
 -- `Optional[Point]` positions: `None` and a `Point`
 example : HasTyE envS (optTy (.cls "Point")) (.scalar .none) := HasTyE.optNone _ (NonNullTy.cls pointD pointD_simple)
